@@ -290,14 +290,75 @@ def handover_weight(eng, res, rule="R-HANDOVER-WEIGHT"):
 
 
 def fully(eng, res, rule="R-FULLY"):
-    fi = eng.prog.cls("MolGen").method("fully_generated")
+    ci = eng.prog.cls("MolGen")
+    fi = ci.method("fully_generated")
     if fi is None:
-        raise AnalysisError("MolGen.fully_generated not found")
+        return _fully_stored(eng, res, ci, rule)
     res.unit(fi)
     can = Canon()
     f = returns_true_formula(eng, fi, can)
     w = can.formula(parse_expr("len(self.bond_descriptors) == 0"))
     res.ob(rule, fi, "meaning", "fully_generated is true iff the open-descriptor list is empty", fi.node, equivalent(f, w)[0], "returned expression is not `len(self.bond_descriptors) == 0`")
+
+
+MUTATORS = {"append", "extend", "insert", "pop", "remove", "clear", "sort", "reverse"}
+
+
+def _fully_stored(eng, res, ci, rule):
+    """fully_generated kept as a stored flag: every store must be `len(<obj>.bond_descriptors) == 0` of the same object,
+    and every change of a MolGen's open-descriptor list must be followed, before the function returns, by such a
+    refresh of the same object (directly or through attach_other, which ends with one)."""
+    stores, muts = [], []
+    for q, fi in sorted(eng.prog.functions.items()):
+        for n in own_nodes(fi.node):
+            if isinstance(n, ast.Attribute) and n.attr == "fully_generated" and isinstance(n.ctx, ast.Store):
+                own = fi.enclosing_class()
+                if not (src(n.value) == "self" and own is not None and own.name != "MolGen"):
+                    stores.append((fi, n))
+            tgt = None
+            if isinstance(n, ast.Attribute) and n.attr == "bond_descriptors" and isinstance(n.ctx, (ast.Store, ast.Del)):
+                tgt = n
+            elif isinstance(n, ast.Subscript) and isinstance(n.ctx, (ast.Store, ast.Del)) and isinstance(n.value, ast.Attribute) and n.value.attr == "bond_descriptors":
+                tgt = n.value
+            elif isinstance(n, ast.AugAssign) and isinstance(n.target, ast.Attribute) and n.target.attr == "bond_descriptors":
+                tgt = n.target
+            elif isinstance(n, ast.Call) and isinstance(n.func, ast.Attribute) and n.func.attr in MUTATORS and isinstance(n.func.value, ast.Attribute) and n.func.value.attr == "bond_descriptors":
+                tgt = n.func.value
+            if tgt is not None:
+                ts = eng.infer(tgt.value, fi)
+                definite_other = ts and all(t[0] == "inst" and t[1] != "MolGen" for t in ts)
+                in_ctor_of_other = fi.name == "__init__" and fi.enclosing_class() is not None and fi.enclosing_class().name != "MolGen" and src(tgt.value) == "self"
+                if not definite_other and not in_ctor_of_other:
+                    muts.append((fi, n, tgt))
+    if not stores:
+        raise AnalysisError("MolGen.fully_generated not found (neither a property nor a stored flag)")
+    can = Canon()
+    for fi, n in stores:
+        st = n
+        while not isinstance(st, ast.stmt):
+            st = st._parent
+        obj = src(n.value)
+        ok = isinstance(st, ast.Assign) and equivalent(can.formula(st.value), can.formula(parse_expr(f"len({obj}.bond_descriptors) == 0")))[0]
+        res.unit(fi)
+        res.ob(rule, fi, f"stored-meaning:{obj}", "a stored fully_generated flag is set to `the open-descriptor list of that object is empty`", n, ok, f"{src(st)[:80]}")
+    for fi, n, tgt in muts:
+        cfg = eng.flow(fi).cfg
+        obj = src(tgt.value)
+        nid = cfg.node_of(n)
+        refresh = set()
+        for x in own_nodes(fi.node):
+            if isinstance(x, ast.Attribute) and x.attr == "fully_generated" and isinstance(x.ctx, ast.Store) and src(x.value) == obj:
+                refresh.add(cfg.node_of(x))
+            if isinstance(x, ast.Call) and isinstance(x.func, ast.Attribute) and x.func.attr == "attach_other" and src(x.func.value) == obj and cfg.has(x):
+                refresh.add(cfg.node_of(x))
+        refresh.discard(nid)
+        after = {d for d, lab in cfg.succ[nid] if lab != "exc"}
+        r = cfg.reachable(after, avoid_nodes=refresh, skip_exc=True)
+        ok = cfg.exit not in r
+        res.unit(fi)
+        res.ob(rule, fi, f"stored-refresh:{obj}@{getattr(n, 'lineno', 0) - fi.node.lineno}", "after a change of a half-built molecule's open-descriptor list its stored fully_generated flag is recomputed before the function returns",
+               n, ok, f"{obj}.bond_descriptors is changed here and a path reaches the end of {fi.name} without recomputing {obj}.fully_generated")
+
 
 
 def do_while(eng, res):
@@ -315,6 +376,10 @@ def do_while(eng, res):
 
 
 def check(eng, res):
+    from ..fresh import fresh_flags
+
+    res.doc("R-FRESH-FLAG", "A-FRESH: no condition flag tested inside a loop keeps its value from a previous iteration")
+    fresh_flags(eng, res, {'stochastic', 'molecule'})
     res.doc("R-ELEM-ORDER", "Molecule.generate iterates the element list in order, threading the previous result as prefix, returns the last result")
     res.doc("R-HANDOVER-GUARD", "the base-class guard dominates every attachment in each generate override; start closure before growth")
     res.doc("R-RESERVE-PAIR", "acquire/release pairing of the descriptor reserved for the right terminal; capping loop shape")
